@@ -371,12 +371,13 @@ def maxlen_table():
     return json.load(open(os.path.join(HERE, "tools", "sweep_maxlen.json")))
 
 
-def disxb_all(ctx, cpus, addr, chunk=4096):
-    """returns {cpu: {"bad": {kind: {prefix: len}}, "max": n, "crash": set(prefix), "n": count}}"""
+def disxb_all(ctx, cpus, addr, off=0, chunk=4096):
+    """every 16-bit pattern at byte offset `off` of the instruction, for the named CPUs.
+    returns {cpu: {"bad": {kind: {pattern: len}}, "max": n, "n": count, "lens": histogram}}"""
     res = {c: {"bad": collections.defaultdict(dict), "max": 0, "n": 0, "lens": collections.Counter()} for c, _ in cpus}
     work = [(c, fr, fr + chunk) for c, _ in cpus for fr in range(0, 65536, chunk)]
     while work:
-        ans = ctx.impl(["disxb %s %x %s %d %d" % (c, addr, TAIL, fr, to) for c, fr, to in work])
+        ans = ctx.impl(["disxb %s %x %s %d %d %d" % (c, addr, TAIL, fr, to, off) for c, fr, to in work])
         nxt = []
         for (c, fr, to), a in zip(work, ans):
             if not a.startswith("n="):
@@ -416,99 +417,181 @@ def c08_correspondence(ctx, corr):
     return
 
 
+# Offsets of the swept 16-bit pattern inside the instruction: 0 for every CPU; 2 as well (the upper half-word of a
+# little-endian 32-bit word, where those ISAs keep their opcode bits) for every CPU whose instructions reach 4 bytes.
+def sweep_offsets(maxlen, c):
+    return [0, 2] if maxlen.get(c, 0) >= 4 else [0]
+
+
+WALK_BLOCKS = [(0x1000, 192), (0xff40, 256), (0x20000 - 64, 96)]
+KIND_TEXT = {"short": "length >= one address unit",
+             "nonlocal": "text and length independent of the bytes after the instruction",
+             "nonul": "NUL-terminated text inside the 128-byte buffer",
+             "crash": "the disassembler returns"}
+
+
+def leb_signed32(blk, pos):
+    """(value as the C code keeps it in an int, bytes read): LEB128 as disasm/webasm.cpp reads it (at most 10 bytes;
+    bytes past the block read as 0)"""
+    num, shift, n = 0, 0, 0
+    while n < 10:
+        ch = blk[pos + n] if pos + n < len(blk) else 0
+        n += 1
+        num |= (ch & 0x7f) << shift
+        shift += 7
+        if not ch & 0x80:
+            break
+    if shift < 64 and num & (1 << (shift - 1)):
+        num -= 1 << shift
+    num &= 0xffffffff
+    return (num - (1 << 32) if num & 0x80000000 else num), n
+
+
+def line_address(c, bpa, head):
+    """byte address named by the text before the ':' of a listing line of disasm_range_<c>; None if the line is not
+    an address line (headings such as 'Vectors:')"""
+    h = head.strip()
+    try:
+        if c in ("agc", "pdp8"):                      # "0%04o": octal word address
+            return int(h, 8) * bpa if re.fullmatch(r"0[0-7]+", h) else None
+        if c == "pdp11":                              # "0%04x": hex byte address after a literal 0
+            return int(h[1:], 16) if re.fullmatch(r"0[0-9a-f]{4,}", h) else None
+        if c in ("tms1000", "tms1100"):               # "%03x|%-2d [chapter/]page/lsfr": linear address first
+            m = re.fullmatch(r"([0-9a-f]+)\|\d+ +[0-9a-f]+/[0-9a-f]+(/[0-9a-f]+)?", h)
+            return int(m.group(1), 16) if m else None
+        if re.fullmatch(r"0x[0-9a-fA-F]+", h):
+            return int(h, 16) * bpa
+    except ValueError:
+        pass
+    return None
+
+
+def line_step(c, ad, start, end, blk, lens):
+    """bytes covered by the listing line that disasm_range prints at byte address `ad` (None: unknown length).
+    One line = one instruction of the single-instruction disassembler, except for the three listing formats below."""
+    n = lens.get(ad)
+    if n is None or n <= 0:
+        return None
+    if c in ("msp430", "msp430x") and 0xffe0 <= ad <= 0xffff:
+        return 2                     # the interrupt vector table is listed as 16 words, one per line
+    if c in ("ps2_ee_vu0", "ps2_ee_vu1"):
+        m = lens.get(ad + 4)         # a VU instruction is the pair lower (ad) / upper (ad + 4) word: one line
+        return n + m if m and m > 0 else None
+    if c == "webasm" and blk[ad - start] == 0x0e:
+        # br_table: the instruction line covers opcode + count, the entries follow on lines without address
+        count, k = leb_signed32(blk, ad - start + 1)
+        pos, i = ad + 1 + k, 0
+        while i < count and pos <= end:
+            _, k2 = leb_signed32(blk, pos - start)
+            pos += k2
+            i += 1
+        return pos - ad
+    return n
+
+
 def c08_oracle(ctx, orc):
     cpus = cpu_table(ctx)
     maxlen = maxlen_table()
     known = known_members("C08")
-    res = disxb_all(ctx, cpus, A0)
-    stats = {"cpus": len(cpus), "prefixes_per_cpu": 65536, "instructions": 0, "bad_by_kind": collections.Counter()}
+    stats = {"cpus": len(cpus), "patterns_per_cpu_and_offset": 65536, "instructions": 0, "bad_by_kind": collections.Counter()}
     skip_walk = set()
-    for c, bpa in cpus:
-        r = res[c]
-        orc["cases"] += r["n"]
-        stats["instructions"] += r["n"]
-        if r["max"] > maxlen.get(c, 0):
-            orc["failures"].append({"sig": "C08:sweep:%s:toolong:%d" % (c, r["max"]), "input": ".%s all 16-bit prefixes" % c,
-                                    "expected": "length <= %d (the CPU's longest instruction)" % maxlen.get(c, 0),
-                                    "observed": "length %d" % r["max"], "what": "instruction length above the CPU's maximum"})
-        for kind, members in r["bad"].items():
-            stats["bad_by_kind"][kind] += len(members)
-            if kind in ("short", "crash"):
-                skip_walk.add(c)
-            sig = "C08:sweep:%s:%s" % (c, kind)
-            new = sorted(set(members) - known.get(sig, set()))
-            if len(new) < len(members):
-                orc["failures"].append({"sig": sig, "input": ".%s prefixes %s" % (c, set_to_ranges(set(members) - set(new))[:300]),
-                                        "expected": "see property", "observed": kind, "what": "known class"})
-            for p in new[:8]:
-                orc["failures"].append({
-                    "sig": "%s:%04x" % (sig, p), "input": ".%s bytes %04x%s at 0x%x" % (c, p, TAIL, A0),
-                    "expected": {"short": "length >= one address unit (%d)" % bpa,
-                                 "nonlocal": "text and length independent of the bytes after the instruction",
-                                 "nonul": "NUL-terminated text inside the 128-byte buffer",
-                                 "crash": "the disassembler returns"}.get(kind, kind),
-                    "observed": "%s (%s)" % (kind, members[p]), "what": "single-instruction disassembly: " + kind,
-                    "replay_line": "disx %s %x %04x%s" % (c, A0, p, TAIL)})
-    # (b) range walk = chain of instruction lengths
+    for off in (0, 2):
+        sel = [(c, b) for c, b in cpus if off in sweep_offsets(maxlen, c)]
+        res = disxb_all(ctx, sel, A0, off)
+        tag = "" if off == 0 else "@%d" % off
+        stats["cpus_offset_%d" % off] = len(sel)
+        for c, bpa in sel:
+            r = res[c]
+            orc["cases"] += r["n"]
+            stats["instructions"] += r["n"]
+            if r["max"] > maxlen.get(c, 0):
+                orc["failures"].append({"sig": "C08:sweep:%s:toolong%s:%d" % (c, tag, r["max"]), "input": ".%s all 16-bit patterns at offset %d" % (c, off),
+                                        "expected": "length <= %d (the CPU's longest instruction)" % maxlen.get(c, 0),
+                                        "observed": "length %d" % r["max"], "what": "instruction length above the CPU's maximum"})
+            for kind, members in r["bad"].items():
+                stats["bad_by_kind"][kind] += len(members)
+                if kind in ("short", "crash"):
+                    skip_walk.add(c)
+                sig = "C08:sweep:%s:%s%s" % (c, kind, tag)
+                new = sorted(set(members) - known.get(sig, set()))
+                if len(new) < len(members):
+                    orc["failures"].append({"sig": sig, "input": ".%s patterns %s" % (c, set_to_ranges(set(members) - set(new))[:300]),
+                                            "expected": KIND_TEXT.get(kind, kind), "observed": kind, "what": "known class"})
+                for p in new[:8]:
+                    b = bytes.fromhex(TAIL)
+                    b = b[:off] + bytes([p >> 8, p & 0xff]) + b[off:]
+                    orc["failures"].append({
+                        "sig": "%s:%04x" % (sig, p), "input": ".%s bytes %s at 0x%x" % (c, b.hex(), A0),
+                        "expected": KIND_TEXT.get(kind, kind) + (" (%d)" % bpa if kind == "short" else ""),
+                        "observed": "%s (%s)" % (kind, members[p]), "what": "single-instruction disassembly: " + kind,
+                        "replay_line": "disx %s %x %s" % (c, A0, b.hex())})
+    # (b) range walk: the address column is the chain start, start + line, ... up to the end
     wl, wm = [], []
     for c, bpa in cpus:
         if c in skip_walk:
             continue
-        for bi, (start, n) in enumerate([(0x1000, 192), (0xff40, 256), (0x20000 - 64, 96)]):
+        for bi, (start, n) in enumerate(WALK_BLOCKS):
             blk = lcg_block(0x1234567 + bi * 977 + sum(map(ord, c)), n)
-            wl.append("walk %s %x %x %s" % (c, start, start + n - 1, blk.hex()))
+            wl.append("walkx %s %x %x %s" % (c, start, start + n - 1, blk.hex()))
             wm.append((c, bpa, start, blk))
     wa = ctx.impl(wl)
     dl, dm = [], []
+    for (c, bpa, start, blk) in wm:
+        for ad in range(start, start + len(blk), bpa):
+            dl.append("disx %s %x %s" % (c, ad, blk[ad - start:].hex()))
+            dm.append((c, start, ad))
+    da = ctx.impl(dl)
+    lens = collections.defaultdict(dict)
+    for (c, start, ad), a in zip(dm, da):
+        p = a.split()
+        lens[(c, start)][ad] = int(p[0]) if p and p[0].lstrip("-").isdigit() else None
+    walks = 0
     for (c, bpa, start, blk), a in zip(wm, wa):
         orc["cases"] += 1
+        end = start + len(blk) - 1
+        rl = "walkx %s %x %x %s" % (c, start, end, blk.hex())
         if a.startswith("DIED") or a in ("bad-op", "MISSING"):
             orc["failures"].append({"sig": "C08:sweep:%s:walk-crash:%x" % (c, start), "input": ".%s range 0x%x" % (c, start),
                                     "expected": "the range walk returns", "observed": a[:160], "what": "disasm_range died / hung",
-                                    "replay_line": "walk %s %x %x %s" % (c, start, start + len(blk) - 1, blk.hex())})
+                                    "replay_line": rl})
             continue
-        if a == "-":
-            continue
-        addrs = [int(x.rstrip("+"), 16) * bpa for x in a.split(",") if not x.endswith("+")]
-        for ad in addrs:
-            if start <= ad < start + len(blk):
-                dl.append("disx %s %x %s" % (c, ad, blk[ad - start:].hex()))
-                dm.append((c, start, ad))
-        dm.append((c, start, None, addrs, blk))
-    da = ctx.impl(dl)
-    lens = {}
-    it = iter(da)
-    for m in dm:
-        if len(m) == 3:
-            a = next(it)
-            p = a.split()
-            lens[m] = int(p[0]) if p and p[0].lstrip("-").isdigit() else None
-    walks = 0
-    for m in dm:
-        if len(m) != 5:
-            continue
-        c, start, _, addrs, blk = m
         walks += 1
-        end = start + len(blk) - 1
-        exp, ad = [], start
-        ok = True
+        heads = [] if a == "-" else [nvlib.unhex(x) for x in a.split(",")]
+        heads = [h.decode("latin-1") if isinstance(h, bytes) else h for h in heads]
+        printed = [x for x in (line_address(c, bpa, h) for h in heads) if x is not None]
+        # expected instruction lines
+        exp, ad, why = [], start, None
         while ad <= end:
             exp.append(ad)
-            n = lens.get((c, start, ad))
-            if n is None:
-                # the walk did not print this address: its length is unknown, ask for it later (mismatch anyway)
-                ok = False
+            st = line_step(c, ad, start, end, blk, lens[(c, start)])
+            if st is None:
+                why = "single-instruction disassembler gives no positive length at 0x%x" % ad
                 break
-            if n <= 0:
-                break
-            ad += n
-        if not ok or addrs != exp:
+            ad += st
+        if why is None:
+            es = set(exp)
+            if any(y <= x for x, y in zip(printed, printed[1:])):
+                why = "address column not strictly increasing"
+            elif [x for x in exp if x not in set(printed)]:
+                why = "instruction address 0x%x not printed" % [x for x in exp if x not in set(printed)][0]
+            else:
+                # every other printed address must be a continuation line inside the instruction before it
+                bounds = exp + [ad]
+                import bisect
+                for x in printed:
+                    if x in es:
+                        continue
+                    k = bisect.bisect_right(exp, x) - 1
+                    if k < 0 or not (bounds[k] < x < bounds[k + 1]):
+                        why = "address 0x%x printed outside the range / chain" % x
+                        break
+        if why is not None:
             orc["failures"].append({
                 "sig": "C08:sweep:%s:walk-tiling:%x" % (c, start), "input": ".%s range 0x%x-0x%x over %s" % (c, start, end, blk.hex()[:64]),
-                "expected": "addresses %s..." % ",".join("%x" % x for x in exp[:12]),
-                "observed": "addresses %s..." % ",".join("%x" % x for x in addrs[:12]),
+                "expected": "instruction lines at %s... (every unit once, increasing, up to the end)" % ",".join("%x" % x for x in exp[:12]),
+                "observed": "%s; printed %s..." % (why, ",".join("%x" % x for x in printed[:12])),
                 "what": "disasm_range does not print the chain start, start+len, ... up to the end",
-                "replay_line": "walk %s %x %x %s" % (c, start, end, blk.hex())})
+                "replay_line": rl})
     stats["range_walks"] = walks
     stats["walk_skipped_cpus"] = sorted(skip_walk)
     # (c) naken_util -disasm page geometry
@@ -533,7 +616,8 @@ def util_page_walk(ctx, orc):
             path = os.path.join(tmp, "pw_%s_%d.bin" % (cpu, gi))
             open(path, "wb").write(nop * (size // len(nop)))
             try:
-                r = subprocess.run([ctx.repo["naken_util"], "-disasm", "-" + cpu, "-bin", "-address", "0x%x" % (start // bpa), path],
+                # -address is the BYTE address the image is placed at (fileio/read_bin.cpp); the listing prints address units
+                r = subprocess.run([ctx.repo["naken_util"], "-disasm", "-" + cpu, "-bin", "-address", "0x%x" % start, path],
                                    stdout=subprocess.PIPE, stderr=subprocess.PIPE, env=nvlib.SAN_ENV, timeout=120)
                 out, rc = r.stdout.decode("latin-1"), r.returncode
             except subprocess.TimeoutExpired:
@@ -552,7 +636,7 @@ def util_page_walk(ctx, orc):
                 dup = len(addrs) - len(set(addrs))
                 orc["failures"].append({
                     "sig": "C08:util-disasm:%s:%x+%x" % (cpu, start, size),
-                    "input": "naken_util -disasm -%s -bin -address 0x%x (image of %d bytes of nop)" % (cpu, start // bpa, size),
+                    "input": "naken_util -disasm -%s -bin -address 0x%x (image of %d bytes of nop)" % (cpu, start, size),
                     "expected": "every instruction address %x..%x listed once, in order" % (start, start + size - len(nop)),
                     "observed": "rc=%d, %d lines, %d missing (first %s), %d unexpected, %d repeated" % (
                         rc, len(addrs), len(miss), ["%x" % x for x in miss[:3]], len(extra), dup),
